@@ -51,6 +51,7 @@ ap.add_argument("--depth", type=int, default=4)
 ap.add_argument("--maxpasses", type=int, default=1)
 ap.add_argument("--show", type=int, default=3)
 ap.add_argument("--chain", action="store_true")
+ap.add_argument("--tame", action="store_true", help="with --chain: fewer panic-prone shapes")
 ap.add_argument("--resolving", action="store_true")
 ap.add_argument("--dump", default="", help="write the disagreeing jobs (JSON lines) to this file")
 a = ap.parse_args()
@@ -79,7 +80,7 @@ try:
         sys.exit(1)
     jobs = []
     for _ in range(a.n):
-        g = irgen.IRGen(rng, max_depth=a.depth, features={"resolving": a.resolving, "chain": a.chain})
+        g = irgen.IRGen(rng, max_depth=a.depth, features={"resolving": a.resolving, "chain": a.chain, "tame": a.tame})
         schemas = g.schemas()
         if a.seq:
             seq = SEQS.get(a.seq) or a.seq.split(",")
